@@ -341,6 +341,114 @@ def _chain_case(override, top, levels):
 
 
 # ----------------------------------------------------------------------------------------
+# Part 1b: an @import that is resolved after the referring sheet has been parsed (rule added, href set, rule built with a parent)
+# climbs the same ladder as one resolved during the parse: without information of its own it takes the referring sheet's encoding
+
+LATE_TOPS = ['url-transport', 'url-charset', 'url-bom', 'bytes-charset', 'text-charset', 'imported-by-transport', 'imported-by-charset']
+LATE_HOW = ['during-parse', 'add(rule)', 'insertRule(rule)', 'href=', 'CSSImportRule(parentStyleSheet=)', 'add(text)']
+LATE_CHILD = [['none', None], ['none', 'cp866'], ['charset', None]]  # (marker of the late sheet, its transport charset)
+
+
+def _late_referrer(top, with_import):
+    """-> (sheet that will refer to late.css, table).  with_import: the @import is in the source (resolved during the parse)"""
+    imp = '@import "late.css";' if with_import else ''
+    body = (imp + '\nk{}').encode('ascii')
+    table = {}
+    child = {'http://x/late.css': None}
+    if top.startswith('imported'):
+        inner = (b'@charset "cp1251";' if top.endswith('charset') else b'') + body
+        table['http://x/mid.css'] = ('koi8-r' if top.endswith('transport') else None, inner)
+        src = b'@charset "iso-8859-5";@import "mid.css";\nj{}'
+        mode = 'bytes'
+    elif top == 'url-transport':
+        table[TOP_HREF] = (E_TOP_TRANSPORT, body)
+        mode = 'url'
+    elif top == 'url-charset':
+        table[TOP_HREF] = (None, b'@charset "iso-8859-5";' + body)
+        mode = 'url'
+    elif top == 'url-bom':
+        table[TOP_HREF] = (None, codecs.BOM_UTF8 + body)
+        mode = 'url'
+    elif top == 'bytes-charset':
+        src, mode = b'@charset "iso-8859-5";' + body, 'bytes'
+    elif top == 'bytes-encoding-arg':
+        src, mode = body, 'bytes-arg'
+    else:
+        src, mode = '@charset "iso-8859-5";' + body.decode('ascii'), 'text'
+    return mode, (src if mode != 'url' else None), table
+
+
+def _run_late(res, case):
+    top, how, (cm, chttp) = case['top'], case['how'], case['child']
+    res.evaluations += 1
+    res.nontrivial += 1
+    res.clauses['C08.ladder.late'] += 1
+    guard.pristine()
+    mode, src, table = _late_referrer(top, how == 'during-parse')
+    late_src = (b'@charset "cp850";' if cm == 'charset' else b'') + b'.m{content:"' + MARK + b'"}'
+    table['http://x/late.css'] = (chttp, late_src)
+    log = []
+
+    def fetch(url):
+        log.append(url)
+        return table.get(url)
+
+    try:
+        with guard.watchdog(WD):
+            parser = cssutils.CSSParser(fetcher=fetch)
+            if mode == 'url':
+                sheet = parser.parseUrl(TOP_HREF)
+            elif mode == 'bytes-arg':
+                sheet = parser.parseString(src, encoding='iso-8859-5', href=TOP_HREF)
+            else:
+                sheet = parser.parseString(src, href=TOP_HREF)
+            ref_sheet = sheet
+            if top.startswith('imported'):
+                ref_sheet = [r for r in sheet.cssRules if r.type == r.IMPORT_RULE][0].styleSheet
+            cssutils.log.raiseExceptions = True
+            if how == 'during-parse':
+                rule = [r for r in ref_sheet.cssRules if r.type == r.IMPORT_RULE][0]
+            elif how == 'add(rule)':
+                rule = cssutils.css.CSSImportRule(href='late.css')
+                ref_sheet.add(rule)
+            elif how == 'insertRule(rule)':
+                rule = cssutils.css.CSSImportRule(href='late.css')
+                ref_sheet.insertRule(rule, 1 if ref_sheet.cssRules.length and ref_sheet.cssRules[0].type == R.CHARSET_RULE else 0)
+            elif how == 'href=':
+                rule = cssutils.css.CSSImportRule(href='nothing.css')
+                ref_sheet.add(rule)
+                rule.href = 'late.css'
+            elif how == 'add(text)':
+                ref_sheet.add('@import "late.css";')
+                rule = [r for r in ref_sheet.cssRules if r.type == r.IMPORT_RULE][-1]
+            else:
+                rule = cssutils.css.CSSImportRule(href='late.css', parentStyleSheet=ref_sheet)
+            want_parent = ref.norm(ref_sheet.encoding)
+            child = rule.styleSheet
+            obs = _observe_chain(child, 0)[0] if child is not None else None
+    except guard.Timeout:
+        res.violation('C08.terminates', f'timeout|late|{how}', case, 'answer', 'timeout')
+        return
+    except Exception as e:
+        res.violation('C08.noraise', f'{guard.crash_site(e)}|late|{how}', case, 'a sheet', repr(e)[:300])
+        return
+    finally:
+        cssutils.log.raiseExceptions = True
+    # the late sheet: own @charset > transport charset > encoding the referring sheet reports
+    want = 'cp850' if cm == 'charset' else (ref.norm(chttp) if chttp else want_parent)
+    rung = 'own-charset' if cm == 'charset' else ('transport' if chttp else 'referring-sheet')
+    res.validated += 1
+    res.outcomes.add(h64(['late', how, rung, None if obs is None else ref.norm(obs['encoding'])]))
+    if obs is None or obs['marker'] is None:
+        res.violation('C08.ladder', f'late-import-not-loaded|{how}|expected={rung}', case, want, None if obs is None else obs)
+        return
+    got = ref.norm(obs['encoding'])
+    if got != want or obs['marker'] != MARK.decode(want):
+        res.violation('C08.ladder', f'late-import-encoding|{how}|expected={rung}|observed={DECODED_AS.get(obs["marker"], got)}', case,
+                      [want, MARK.decode(want)], [got, obs['marker']])
+
+
+# ----------------------------------------------------------------------------------------
 # Part 2: serialised bytes
 
 TARGETS = ['ascii', 'latin-1', 'cp1252', 'utf-8', 'utf-16']
@@ -720,6 +828,7 @@ def plan(tier):
         for top in _tops(override):
             for ri in range(len(ROWS)):
                 shards.append(['ladder', override, top, ri])
+    shards.append(['late'])
     for pos in POSITIONS:
         for target in _targets(tier):
             shards.append(['bytes', pos, target])
@@ -740,6 +849,12 @@ def run_shard(shard, tier, seed):
             _run_chain(res, _chain_case(override, top, levels))
         pick = chains[h64(repr(shard) + str(seed)) % len(chains)]
         res.sample(_chain_case(override, top, pick))
+    elif kind == 'late':
+        for top in LATE_TOPS:
+            for how in LATE_HOW:
+                for child in LATE_CHILD:
+                    _run_late(res, {'kind': 'late', 'top': top, 'how': how, 'child': child})
+        res.sample({'kind': 'late', 'top': LATE_TOPS[1], 'how': LATE_HOW[1], 'child': LATE_CHILD[0]})
     elif kind == 'bytes':
         _, pos, target = shard
         stringish = POSITIONS[pos][1]
@@ -769,7 +884,9 @@ def run_shard(shard, tier, seed):
 def replay(case, tier, seed):
     guard.pristine()
     res = Result(seed)
-    if case['kind'] == 'chain':
+    if case['kind'] == 'late':
+        _run_late(res, case)
+    elif case['kind'] == 'chain':
         _run_chain(res, case)
     elif case['kind'] == 'bytes':
         _run_bytes(res, case)
